@@ -30,6 +30,10 @@ type Program struct {
 	callOnly    map[*ast.FuncLit]types.Object
 	globalInits map[*types.Var]ast.Expr
 	privAlloc   map[types.Object]bool
+	binOpDone bool
+	binOpVals map[string]string
+	binOpPos  token.Pos
+	binOpFn   *types.Func
 	scanPosDone bool
 	scanPosOK   bool
 	scanPosWhy  string
